@@ -158,9 +158,9 @@ func (p *Parser) parseStatement() ast.Statement {
 	case token.HTML:
 		return p.parseHTMLStmt()
 	case token.LBRACES:
-		return p.parseEmbeddedCode()
+		return p.parseBracesStmt()
 	case token.SEMI:
-		return p.parseEmbeddedCode()
+		return p.parseBracesStmt()
 	case token.IF:
 		return p.parseIfStmt()
 	case token.FOR:
@@ -190,6 +190,28 @@ func (p *Parser) parseStatement() ast.Statement {
 	default:
 		return nil
 	}
+}
+
+// parseBracesStmt parses one statement inside "{{ }}" and makes sure
+// that it is followed by ";" or by the closing "}}"
+func (p *Parser) parseBracesStmt() ast.Statement {
+	stmt := p.parseEmbeddedCode()
+
+	if stmt == nil || p.curTokenIs(token.RBRACES) {
+		return stmt
+	}
+
+	if !p.peekTokenIs(token.RBRACES, token.SEMI) {
+		p.newError(
+			p.peekToken.ErrorLine(),
+			fail.ErrWrongNextToken,
+			token.String(token.RBRACES),
+			token.String(p.peekToken.Type),
+		)
+		return nil
+	}
+
+	return stmt
 }
 
 func (p *Parser) parseEmbeddedCode() ast.Statement {
